@@ -209,3 +209,9 @@ End Views.
 (* zero-sized sources or targets: the view covers zero bytes *)
 Lemma view_zst A B s v : slice_view_ok A B s v -> sz A = 0 \/ sz B = 0 -> slen v * sz B = 0.
 Proof. intros (_ & Hn & _ & _) [Z|Z]; [rewrite Hn, Z | rewrite Z]; apply N.mul_0_r. Qed.
+
+(* pod_align_to / pod_align_to_mut as translated: one call of core's split on the argument *)
+Theorem pod_align_to_is_align_to ENV T U s :
+  Root.pod_align_to ENV T U s = Ret (Model.StdSlice.slice_align_to T U s) /\
+  Root.pod_align_to_mut ENV T U s = Ret (Model.StdSlice.slice_align_to T U s).
+Proof. split; reflexivity. Qed.
